@@ -9,6 +9,8 @@ def run(res, tier, replay=None):
     c04c.run(prog, res, prims=c01.primitives(prog))
     c04c.run_bounds(prog, res, "C04", "C04.d", {"eval.c", "bignum.c", "sexp.c", "bit.c", "vm.c"}, floor=0)
     c04c.bounds_witnesses(prog, res)
+    c04c.run_radix(prog, res, "C04", "C04.f", {"sexp.c", "bignum.c"}, floor=3)
+    c04c.run_unbox_belief(prog, res, "C04", "C04.e", {"eval.c", "bignum.c", "sexp.c", "bit.c", "vm.c"}, floor=20)
     res.assumptions = common.ASSUMPTIONS
     res.explanation = (
         "C04, two clauses. (c) numbers are immutable: every in-place store to a bignum's sign or a flonum's value is followed - "
@@ -16,7 +18,7 @@ def run(res, tier, replay=None):
         "unchanged: passthrough summaries from the callees' return statements), then through the helpers that take a destination - "
         "up to the functions Scheme code reaches with its own values (VM arithmetic entry points, opcodes[] and foreign functions), "
         "none of which may modify (a part of) an operand. (d) a double compared with an integer constant that binary64 cannot represent "
-        "(SEXP_MAX_FIXNUM) uses the operator that stays correct when the constant is rounded. (a) every value returned by the generic arithmetic entry points (sexp_add/sub/mul/div/quotient/remainder, "
+        "(SEXP_MAX_FIXNUM) uses the operator that stays correct when the constant is rounded. (f) a function of the number reader that received the radix passes it on to every reader it calls. (e) no value is unboxed as a fixnum where the dominating numeric tests (sexp_exact_integerp ...) still admit a bignum, flonum, ratio or complex. (a) every value returned by the generic arithmetic entry points (sexp_add/sub/mul/div/quotient/remainder, "
         "expt, exact-sqrt, inexact->exact, the SRFI-151 bit operations, the ratio operations, the number reader) that may come from "
         "a raw bignum/ratio producer passes through sexp_bignum_normalize / sexp_ratio_normalize first (forward may-taint dataflow; "
         "producers inferred from the allocation sites and closed over the representation helpers). Not decided: digit-level "
@@ -24,4 +26,6 @@ def run(res, tier, replay=None):
     if tier == "thorough":
         common.thorough_mutations(res, "C04", {"C04": lambda p, r: c04.run(p, r),
                                                    "C04.c": lambda p, r: c04c.run(p, r, floor=0, prims=c01.primitives(p)),
+                                                   "C04.e": lambda p, r: c04c.run_unbox_belief(p, r, "C04", "C04.e", {"eval.c", "bignum.c", "sexp.c", "bit.c", "vm.c"}, floor=0),
+                                                   "C04.f": lambda p, r: c04c.run_radix(p, r, "C04", "C04.f", {"sexp.c", "bignum.c"}, floor=0),
                                                    "C04.d": lambda p, r: c04c.run_bounds(p, r, "C04", "C04.d", {"eval.c", "bignum.c", "sexp.c", "bit.c", "vm.c"}, floor=0)})
